@@ -7,13 +7,20 @@ Open Scope nat_scope.
 Theorem conn_setter_frame : forall (A D : Type) (cast : D -> A -> A) (zeroA : A) (shp : list nat) 
     (c : conn RN) (o : conn_op RN),
   match o with
-  | KDt _ _ =>
+  | KDt _ _ | KOnSyn _ (SDt _ _) =>
       conn_batch RN (conn_apply RN cast zeroA shp c o) = conn_batch RN c /\
       conn_delayedby RN (conn_apply RN cast zeroA shp c o) = conn_delayedby RN c
-  | KBatch _ _ =>
+  | KOnSyn _ (SDelay _ _) =>
       conn_dt RN (conn_apply RN cast zeroA shp c o) = conn_dt RN c /\
+      conn_batch RN (conn_apply RN cast zeroA shp c o) = conn_batch RN c
+  | KOnSyn _ (SInplace _ _) =>
+      conn_dt RN (conn_apply RN cast zeroA shp c o) = conn_dt RN c /\
+      conn_batch RN (conn_apply RN cast zeroA shp c o) = conn_batch RN c /\
       conn_delayedby RN (conn_apply RN cast zeroA shp c o) = conn_delayedby RN c
   | KSyn _ _ _ _ _ _ => True
+  | _ =>
+      conn_dt RN (conn_apply RN cast zeroA shp c o) = conn_dt RN c /\
+      conn_delayedby RN (conn_apply RN cast zeroA shp c o) = conn_delayedby RN c
   end.
 Proof. exact (@Inferno.C14.ConnProofs.conn_setter_frame). Qed.
 Print Assumptions conn_setter_frame.
